@@ -247,6 +247,37 @@ theorem checkTable_sound {Row C : Type} [DecidableEq Row] (inside : C → Bool) 
     checkTable inside coord negate before after = true ↔ TableOK inside coord negate before after := by
   simp [checkTable, TableOK]
 
+/-- **result_depends_on_own_centres_only**: the masked array is a function of the current call's
+    data and of the membership of the *current* image's own pixel centres, and of nothing else.  Two
+    WCS / region oracle pairs that agree on those `H·W` positions give the same output; in particular
+    nothing an earlier call computed (sky positions of another image with the same shape, say) can
+    legitimately influence the result, and an implementation that reuses such positions is outside the
+    model unless they coincide with the own ones. -/
+theorem result_depends_on_own_centres_only {α S S' : Type} (nan : α)
+    (sky : Pix → S) (inside : S → Bool) (sky' : Pix → S') (inside' : S' → Bool) (negate : Bool)
+    (P H W : Nat) (data : List α) (hd : data.length = P * (H * W))
+    (hagree : ∀ i j, i < H → j < W →
+      inside (sky (fitsCoord i j)) = inside' (sky' (fitsCoord i j))) :
+    maskFile nan sky inside negate P H W data = maskFile nan sky' inside' negate P H W data := by
+  apply List.ext_getElem?
+  intro k
+  by_cases hk : k < P * (H * W)
+  · obtain ⟨a1, a2, a3⟩ := flat_decompose P (H * W) k hk
+    obtain ⟨b1, b2, b3⟩ := flat_decompose H W (k % (H * W)) a2
+    have e1 := maskFile_pixel nan sky inside negate P H W data hd _ _ _ a1 b1 b2
+    have e2 := maskFile_pixel nan sky' inside' negate P H W data hd _ _ _ a1 b1 b2
+    rw [b3, a3] at e1 e2
+    rw [e1, e2]
+    have : expected nan sky inside negate (k % (H * W) / W) (k % (H * W) % W)
+        = expected nan sky' inside' negate (k % (H * W) / W) (k % (H * W) % W) := by
+      funext v
+      simp only [expected, mustBlank, hagree _ _ b1 b2]
+      rfl
+    rw [this]
+  · have l1 := maskFile_length nan sky inside negate P H W data hd
+    have l2 := maskFile_length nan sky' inside' negate P H W data hd
+    rw [List.getElem?_eq_none (by omega), List.getElem?_eq_none (by omega)]
+
 /-- a 2-D image is the one-plane case -/
 theorem maskFile_one_plane {α S : Type} (nan : α) (sky : Pix → S) (inside : S → Bool) (negate : Bool)
     (H W : Nat) (data : List α) (hd : data.length = H * W) :
@@ -312,6 +343,14 @@ theorem nan_never_inside {S : Type} (finite member : S → Bool) (zero s : S) (h
 theorem finite_inside_iff_member {S : Type} (finite member : S → Bool) (zero s : S) (h : finite s = true) :
     skyWithin finite member zero s = member s := by
   simp [skyWithin, h]
+
+/-- **masked_cell_never_inside**: a coordinate held in a masked (empty) cell is undefined whatever
+    value is stored underneath the mask.  With positions modelled as `(masked?, stored value)` and
+    `finite` false on masked cells, `sky_within` answers False for every stored value — 0.0 as left by
+    the text readers, NaN as left by FITS / VOTable, or a position inside the region. -/
+theorem masked_cell_never_inside {C : Type} (finite member : C → Bool) (zero : Bool × C) (stored : C) :
+    skyWithin (fun s : Bool × C => !s.1 && finite s.2) (fun s => member s.2) zero (true, stored) = false :=
+  nan_never_inside _ _ _ _ (by simp)
 
 /-- a row with undefined coordinates is kept by the plain run and removed by the `negate` run -/
 theorem nan_row_kept_iff {Row C : Type} (finite member : C → Bool) (zero : C) (coord : Row → C)
